@@ -62,6 +62,11 @@ def wf_problems(ir, sig_params=None):
                     out.append(("typ-unparsable", ent + ":" + ("multiline" if "\n" in t else "single-line")))
         if "doc" in v and v["doc"] is not None and not isinstance(v["doc"], str):
             out.append(("doc-not-str", ent))
+        # a key that is present with the value None is neither "a string" nor absent
+        if "doc" in v and v["doc"] is None:
+            out.append(("doc-none", ent))
+        if "typ" in v and v["typ"] is None:
+            out.append(("typ-none", ent))
     if sig_params is not None:
         for kind, name in sig_params:
             if name not in params:
@@ -83,9 +88,9 @@ def gen_docstring(r):
     style = r.choice(("rest", "google", "numpydoc"))
     ir = G.gen_ir(r, nparams=r.randint(0, 4), none_ok=True, with_return=r.random() < 0.6)
     if r.random() < 0.3:
-        ir["params"]["*args"] = {"typ": "tuple", "doc": "extra positional things"}
+        ir["params"][r.choice(["*args", "*args", "*rest", "*values"])] = {"typ": "tuple", "doc": "extra positional things"}
     if r.random() < 0.3:
-        ir["params"]["**kwargs"] = {"typ": "dict", "doc": "extra keyword things"}
+        ir["params"][r.choice(["**kwargs", "**kwargs", "**options", "**extra", "**model_kwargs"])] = {"typ": "dict", "doc": "extra keyword things"}
     for n, p in ir["params"].items():
         if r.random() < 0.25:
             p["doc"] = p.get("doc", "thing") + "\n    continued on a second line\n    and a third"
@@ -187,6 +192,98 @@ def gen_sqlalchemy(r):
         body = ",\n    ".join("Column(%r, %s)" % (n, ", ".join(pos + kws)) for n, pos, kws in cols)
         src = 'foo = Table(\n    "foo",\n    metadata,\n    %s,\n    comment="A model.",\n)\n' % body
     return {"src": src, "form": form, "explicit_pk_false": any("primary_key=False" in k for _, _, ks in cols for k in ks)}
+
+
+def gen_class(r):
+    """a hand-written class (plain or pydantic-shaped) with the attribute shapes people write and the project's emitters never produce"""
+    names = r.sample(["a", "b", "name", "count", "tags", "ref", "mode", "payload", "text", "node", "_private"], r.randint(1, 6))
+    lines, documented = [], r.sample(names, r.randint(0, len(names)))
+    shapes = {}
+    for n in names:
+        shape = r.choice(["ann=val", "ann=val", "ann", "ann", "ann-none", "ann-str-forward", "ann-str-prose", "bare=val", "ann-subscript", "ann-attr", "ann=call"])
+        shapes[n] = shape
+        if shape == "ann=val":
+            lines.append("    %s: %s = %s" % (n, r.choice(["int", "str", "float", "bool"]), r.choice(["0", "'x'", "1.5", "True", "None"])))
+        elif shape == "ann":
+            lines.append("    %s: %s" % (n, r.choice(["int", "str", "Optional[int]", "List[str]"])))
+        elif shape == "ann-none":
+            lines.append("    %s: None" % n)
+        elif shape == "ann-str-forward":
+            lines.append("    %s: %s" % (n, r.choice(['"Node"', "'Optional[Node]'", '"List[Node]"'])))
+        elif shape == "ann-str-prose":
+            lines.append("    %s: %s" % (n, r.choice(['"the displayed text"', "'a label, shown to the user'"])))
+        elif shape == "bare=val":
+            lines.append("    %s = %s" % (n, r.choice(["0", "'x'", "(1, 2)", "None", "[]"])))
+        elif shape == "ann-subscript":
+            lines.append("    %s: %s = %s" % (n, r.choice(["Dict[str, int]", "Tuple[int, ...]", "Literal['a', 'b']", "Callable[[int], str]"]), r.choice(["None", "{}", "'a'"])))
+        elif shape == "ann-attr":
+            lines.append("    %s: %s" % (n, r.choice(["np.ndarray", "typing.Any", "tf.data.Dataset"])))
+        else:
+            lines.append("    %s: %s = %s" % (n, r.choice(["int", "List[int]"]), r.choice(["field(default=3)", "Field(3, description='x')", "list()"])))
+    doc = "\n".join(["    A thing.", ""] + ["    :cvar %s: documented %s" % (n, n) for n in documented])
+    base = r.choice(["object", "", "BaseModel"])
+    extra = r.choice(["", "", "\n    def __call__(self):\n        return self.a\n", "\n    class Meta:\n        x = 1\n"])
+    src = 'class Foo%s:\n    """\n%s\n    """\n%s\n%s' % ("(%s)" % base if base else "", doc, "\n".join(lines), extra)
+    return {"src": src, "form": "pydantic" if base == "BaseModel" else "class", "shapes": sorted(set(shapes.values())), "attrs": [[n, shapes[n]] for n in names]}
+
+
+def impl_class(payload):
+    import cdd.class_.parse
+    import cdd.pydantic.parse
+
+    try:
+        node = ast.parse(payload["src"]).body[0]
+        f = cdd.pydantic.parse.pydantic if payload["form"] == "pydantic" else cdd.class_.parse.class_
+        return {"ir": strip_ir(f(node))}
+    except Exception as e:  # noqa
+        return {"raises": core.exc_name(e)}
+
+
+def gen_argparse(r):
+    """a hand-written argparse-building function with the add_argument spellings people write"""
+    names = r.sample(["alpha", "beta", "count", "mode", "tags", "path", "flag", "level", "config"], r.randint(1, 6))
+    lines, shapes = [], {}
+    for n in names:
+        shape = r.choice(["type-default", "type-required", "choices-list", "choices-tuple", "choices-set", "append", "store_true", "no-type", "loads", "nargs", "help-default"])
+        shapes[n] = shape
+        kws = []
+        if shape == "type-default":
+            kws = ["type=%s" % r.choice(["int", "str", "float", "bool"]), "default=%s" % r.choice(["0", "'x'", "1.5", "True", "None"])]
+        elif shape == "type-required":
+            kws = ["type=%s" % r.choice(["int", "str", "float"]), "required=True"]
+        elif shape.startswith("choices-"):
+            ms = r.sample(["'alpha'", "'beta'", "'gamma'", "'delta'"], r.randint(2, 4))
+            o, c = {"list": "[]", "tuple": "()", "set": "{}"}[shape.split("-")[1]]
+            kws = ["choices=%s%s%s" % (o, ", ".join(ms), c)] + (["default=%s" % ms[0]] if r.random() < 0.5 else [])
+        elif shape == "append":
+            kws = ["type=%s" % r.choice(["int", "str"]), "action='append'"] + (["required=True"] if r.random() < 0.5 else [])
+        elif shape == "store_true":
+            kws = ["action='store_true'"]
+        elif shape == "loads":
+            kws = ["type=loads", "default=%s" % r.choice(["None", "'{}'"])]
+        elif shape == "nargs":
+            kws = ["type=int", "nargs=%s" % r.choice(["'+'", "'*'", "2"])]
+        elif shape == "help-default":
+            kws = ["type=int", "help='%s'" % r.choice(["the level. Defaults to 3", "a count, defaults to 2", "plain help"])]
+        if shape != "help-default" and r.random() < 0.6:
+            kws.append("help=%r" % r.choice(["the thing", "a count.", "one, two or three"]))
+        lines.append("    argument_parser.add_argument('--%s', %s)" % (n, ", ".join(kws)) if kws else "    argument_parser.add_argument('--%s')" % n)
+    ret = r.choice(["    return argument_parser", "    return argument_parser, %s" % r.choice(["None", "'x'", "(1, 2)"])])
+    doc = r.choice(['    """\n    Set CLI arguments\n\n    :param argument_parser: argument parser\n    :type argument_parser: ```ArgumentParser```\n\n    :return: argument_parser\n    :rtype: ```ArgumentParser```\n    """',
+                    '    """Set CLI arguments"""', ""])
+    descr = r.choice(["    argument_parser.description = 'A tool'\n", ""])
+    src = "def set_cli_args(argument_parser):\n%s\n%s%s\n%s\n" % (doc, descr, "\n".join(lines), ret)
+    return {"src": src, "shapes": sorted(set(shapes.values())), "attrs": [[n, shapes[n]] for n in names]}
+
+
+def impl_argparse(payload):
+    import cdd.class_.parse  # noqa: F401
+    import cdd.argparse_function.parse
+
+    try:
+        return {"ir": strip_ir(cdd.argparse_function.parse.argparse_ast(ast.parse(payload["src"]).body[0]))}
+    except Exception as e:  # noqa
+        return {"raises": core.exc_name(e)}
 
 
 def gen_json_schema(r):
@@ -380,6 +477,37 @@ def run(chk: core.Check) -> int:
                 detail = "passthrough-keyword" if ks <= passthrough else ",".join(sorted(ks - passthrough))
             chk.failure({"parser": key, "clause": clause, "detail": detail.split(":")[-1] if clause == "typ-unparsable" else (detail if clause == "extra-keys" else None)},
                         "%s parser: %s %s" % (key, clause, detail), {"fn": "handwritten", "kind": kind, "payload": payload})
+    # (4c) hand-written classes (plain and pydantic-shaped): constant / string / None annotations, bare assignments, calls as values, methods
+    cls = [gen_class(rng) for _ in range(n)]
+    res = core.guarded_map(impl_class, cls, 10.0)
+    for payload, r in zip(cls, res):
+        ok = bool(r) and "ir" in r
+        chk.count(("class", payload["src"]), ok)
+        if not ok:
+            continue
+        key = "handwritten-" + payload["form"]
+        accepted[key] = accepted.get(key, 0) + 1
+        by_name = dict(payload["attrs"])
+        for clause, detail in wf_problems(unstrip(r["ir"])):
+            ent = detail.split(":")[0] if ":" in detail else detail
+            chk.failure({"parser": key, "clause": clause, "detail": detail.split(":")[-1] if clause == "typ-unparsable" else (detail if clause == "extra-keys" else None),
+                         "attr_shape": by_name.get(ent.replace("param ", "").strip(), by_name.get(ent))},
+                        "%s parser: %s %s" % (key, clause, detail), {"fn": "class", "payload": payload})
+    # (4d) hand-written argparse functions: choices as list / tuple / set display, append, store_true, nargs, loads, defaults in the help text
+    aps = [gen_argparse(rng) for _ in range(n)]
+    res = core.guarded_map(impl_argparse, aps, 10.0)
+    for payload, r in zip(aps, res):
+        ok = bool(r) and "ir" in r
+        chk.count(("argparse", payload["src"]), ok)
+        if not ok:
+            continue
+        accepted["handwritten-argparse"] = accepted.get("handwritten-argparse", 0) + 1
+        by_name = dict(payload["attrs"])
+        for clause, detail in wf_problems(unstrip(r["ir"])):
+            ent = detail.split(":")[0] if ":" in detail else detail
+            chk.failure({"parser": "handwritten-argparse", "clause": clause, "detail": detail.split(":")[-1] if clause == "typ-unparsable" else (detail if clause == "extra-keys" else None),
+                         "arg_shape": by_name.get(ent.replace("param ", "").strip(), by_name.get(ent))},
+                        "handwritten-argparse parser: %s %s" % (clause, detail), {"fn": "argparse", "payload": payload})
     chk.coverage["accepted_inputs_by_parser"] = accepted
     # (5) the model's witness replayed on the real parser + model/real agreement on WF-relevant structure for ReST texts
     if core.DRIVER.exists():
@@ -413,6 +541,12 @@ def replay(path: str) -> int:
         sig = [tuple(x) for x in d["g"]["sig"]]
     elif d["fn"] == "handwritten":
         r = impl_handwritten((d["kind"], d["payload"]))
+        sig = None
+    elif d["fn"] == "class":
+        r = impl_class(d["payload"])
+        sig = None
+    elif d["fn"] == "argparse":
+        r = impl_argparse(d["payload"])
         sig = None
     else:
         from collections import OrderedDict
